@@ -285,6 +285,21 @@ def object_key_order():
                 [("o1", "P0", "d"), ("o2", "P1", "o")], ["object-key-order"])
 
 
+def objects_same_fields_other_order():
+    """two objects (and two n-tuples) with the same field names and types written in different orders, mixed secrecy"""
+    PI = S("Public", "Int")
+    return prog([inp("s", "in_s", SI), inp("p", "in_p", PI), inp("t", "in_t", SI, "P1"), inp("q", "in_q", PI, "P1"),
+                 {"k": "objnew", "x": "o1", "fs": [("amount", "s"), ("limit", "p")]},
+                 {"k": "objnew", "x": "o2", "fs": [("limit", "q"), ("amount", "t")]},
+                 {"k": "fld", "x": "a1", "a": "o1", "f": "amount"}, {"k": "fld", "x": "l2", "a": "o2", "f": "limit"},
+                 {"k": "fld", "x": "a2", "a": "o2", "f": "amount"},
+                 {"k": "bin", "x": "d", "op": "OSub", "a": "a1", "b": "l2"},
+                 {"k": "ntnew", "x": "n1", "es": ["s", "p"]}, {"k": "ntnew", "x": "n2", "es": ["q", "t"]},
+                 {"k": "idx", "x": "i1", "a": "n2", "i": 0}],
+                [("o1", "P0", "d"), ("o2", "P1", "o2"), ("o3", "P0", "o1"), ("o4", "P1", "a2"), ("o5", "P1", "n2"), ("o6", "P0", "n1"), ("o7", "P1", "i1")],
+                ["objects-same-fields-other-order"])
+
+
 def literal_divisions():
     st = []
     outs = []
@@ -392,4 +407,4 @@ def all_families():
             inner_public_secret(), inner_int_uint(), untruthful_annotation(), secret_flows(), signatures(), output_of_function(),
             dup_inputs("same-party"), dup_inputs("same-party-diff-type"), dup_inputs("diff-party"), dup_inputs("diff-party-one-dead"),
             dup_inputs("same-party-one-dead"), literal_array_inner(), object_key_order(), literal_divisions(),
-            closure_factory(), kwargs_reordered(), unzip_compound(), reduce_public_seed(), rebound_closure_variable(), explicit_types_reordered()] + rejected_functions()
+            closure_factory(), kwargs_reordered(), unzip_compound(), reduce_public_seed(), rebound_closure_variable(), explicit_types_reordered(), objects_same_fields_other_order()] + rejected_functions()
